@@ -1,5 +1,6 @@
 import Driver.Util
 import AslModel.Model.P2Hex
+import AslModel.Model.P2HexRead
 import AslModel.Spec.HexImage
 import AslModel.Spec.HexFamilies
 /-! Driver mode `c06`: one p2hex run per request line.
@@ -9,10 +10,12 @@ request : `<sources> <real output text hex|-> key=value*`
   suffix of the source argument (absent = 0)
   keys: fmt (default|moto|intel|intel16|intel32|mos|tek|atmel|c), start, stop (number|auto), reloc, rel, ll, entry (number|-),
         imode, mm, minmoto, rec5, sep, avrlen, seg, cformat, cname, q (3 characters 0/1: mosCarry mosConst4 tekByteSums), cpufmt (expected format name when fmt=default, for the spec side)
-answer  : `model=<eq|ne|err-…> decode=<ok|bad> why=<-|line:i|struct> cells=<eq|ne> entry=<ok|bad> mdecode=<ok|bad> mcells=<eq|ne> nlines=… ngroups=… ncells=… ov=… [diffline=i modelline=… realline=…]`
+answer  : `model=<eq|ne|err-…> decode=<ok|bad> why=<-|line:i|struct> cells=<eq|ne> entry=<ok|bad> mdecode=<ok|bad> mcells=<eq|ne> nlines=… ngroups=… ncells=… ov=… reader=<eq|ne> [diffline=i modelline=… realline=…]`
  * model   – real text = model text, byte for byte                                     (B)
  * decode/cells/entry – the SPEC decoder for the format accepts the *real* text and returns the expected image/entry  (C)
  * mdecode/mcells – the same on the model's text (what the theorems are about)
+ * reader  – the MODEL of the record loop (`P2Hex.readFileM` over `Tools.readRecordHeader`, short and long record headers)
+             returns the items the documented reader (`PFile.parseFile`) returns
 -/
 namespace Driver.C06
 open AslModel AslModel.P2Hex
@@ -156,8 +159,9 @@ def diffLine : List Hex.Line → List Hex.Line → Nat → String
 def splitRaw (t : List Char) : List Hex.Line :=
   ((String.ofList t).splitOn "\n").map String.toList
 
-/-- one source argument `<hex>[@<offset>]` → (items, offset) -/
-def srcOf (w : String) : Option (List PFile.Item × Int) :=
+/-- one source argument `<hex>[@<offset>]` → (items as the documented reader `PFile.parseFile` returns them (SPEC side),
+items as the MODEL of p2hex's record loop over `ReadRecordHeader` reads them (MODEL side; `none` = a read hits the end), offset) -/
+def srcOf (w : String) : Option (List PFile.Item × Option (List PFile.Item) × Int) :=
   let (fh, off) := match w.splitOn "@" with
     | [f, o] => (f, o.toInt?)
     | [f] => (f, some 0)
@@ -165,7 +169,7 @@ def srcOf (w : String) : Option (List PFile.Item × Int) :=
   match unhex fh, off with
   | some file, some k =>
     match PFile.parseFile file with
-    | some (items, _) => some (items, k)
+    | some (items, _) => some (items, readFileM file, k)
     | none => none
   | _, _ => none
 
@@ -177,7 +181,10 @@ def handle (line : String) : String :=
     | some files, some outb, some o =>
         let real : List Char := outb.map (fun x => Char.ofNat x.toNat)
         -- MODEL: the offset as the LongWord it is stored in; SPEC: the signed value
-        let srcs : List Src := files.map fun (items, k) => ⟨items, (k % 4294967296).toNat⟩
+        match files.mapM (fun (_, mitems, k) => mitems.map fun is => (⟨is, (k % 4294967296).toNat⟩ : Src)) with
+        | none => "model=err-reader"
+        | some srcs =>
+        let rdeq := files.all fun (items, mitems, _) => mitems == some items
         match p2hexFiles o srcs with
         | .error e => s!"model=err-{repr e}"
         | .ok out =>
@@ -185,7 +192,7 @@ def handle (line : String) : String :=
           let meq := mtext == real
           let expected := HexImage.expectedCellsFiles o.forceSeg (if o.startAuto then none else some o.startAdr)
               (if o.stopAuto then none else some o.stopAdr) o.relAdr o.relocate o.multiMode
-              (files.map fun (items, k) => (k, PFile.dataRecs items))
+              (files.map fun (items, _, k) => (k, PFile.dataRecs items))
           match allSameFmt out.groups with
           | none => s!"model={if meq then "eq" else "ne"} decode=skip why=mixed-or-empty cells=skip entry=skip mdecode=skip mcells=skip nlines={out.lines.length} ngroups={out.groups.length} ncells=0 ov={out.overflow}" ++ (if meq then "" else diffLine out.lines (splitRaw real) 0)
           | some f =>
@@ -194,7 +201,7 @@ def handle (line : String) : String :=
             let unit := if f == .intel || f == .intel16 || f == .intel32 then 1 else gran
             let v := specCheck o f unit expected out.entry real
             let mv := if meq then v else specCheck o f unit expected out.entry mtext
-            s!"model={if meq then "eq" else "ne"} decode={if v.decode then "ok" else "bad"} why={v.why} cells={if v.cells then "eq" else "ne"} entry={if v.entry then "ok" else "bad"} mdecode={if mv.decode then "ok" else "bad"} mcells={if mv.cells then "eq" else "ne"} nlines={out.lines.length} ngroups={out.groups.length} ncells={v.ncells} ov={out.overflow} fmt={repr f}" ++
+            s!"model={if meq then "eq" else "ne"} decode={if v.decode then "ok" else "bad"} why={v.why} cells={if v.cells then "eq" else "ne"} entry={if v.entry then "ok" else "bad"} mdecode={if mv.decode then "ok" else "bad"} mcells={if mv.cells then "eq" else "ne"} nlines={out.lines.length} ngroups={out.groups.length} ncells={v.ncells} ov={out.overflow} fmt={repr f} reader={if rdeq then "eq" else "ne"}" ++
               (if meq then "" else diffLine out.lines (splitRaw real) 0)
     | _, _, _ => "bad-request"
   | _ => "bad-request"
